@@ -162,6 +162,47 @@ func genLedgerFacts() (string, error) {
 	}
 	b.WriteString("\n/-- digest (first 6 bytes of SHA-256 of the comment-free, whitespace-normalised body) of every Go function the\nhand model `Canopy.Model.Ledger` transcribes -/\n")
 	fmt.Fprintf(&b, "def handlerDigests : List (String × String) := [\n  %s]\n", strings.Join(digests, ",\n  "))
+	// genesis de-duplication (C12 `genesis_dedup_pinned`, hypothesis of C04 `inv_genesis`): for each of the three record
+	// lists `ValidateGenesisState` ranges over, the key handed to a DeDuplicator and the error returned on a repeat
+	{
+		pf, e := g.ParseFile(filepath.Join(*repo, "fsm/genesis.go"))
+		if e != nil {
+			return "", e
+		}
+		fd := pf.FindFunc("StateMachine", "ValidateGenesisState")
+		if fd == nil || fd.Body == nil {
+			return "", fmt.Errorf("fsm/genesis.go: ValidateGenesisState not found")
+		}
+		body := g.StmtsText(fd.Body.List)
+		loopRe := regexp.MustCompile(`for _, (\w+) := range genesis\.(\w+) \{`)
+		dupRe := regexp.MustCompile(`(?s)if found := \w+\.Found\((.*?)\); found \{\s*return (?:lib\.)?(\w+)\(\)`)
+		locs := loopRe.FindAllStringSubmatchIndex(body, -1)
+		var rows []string
+		for i, l := range locs {
+			list := body[l[4]:l[5]]
+			if list != "Validators" && list != "Accounts" && list != "Pools" {
+				continue
+			}
+			end := len(body)
+			if i+1 < len(locs) {
+				end = locs[i+1][0]
+			}
+			m := dupRe.FindStringSubmatch(body[l[1]:end])
+			if m == nil {
+				return "", fmt.Errorf("ValidateGenesisState: no duplicate rejection inside the loop over genesis.%s", list)
+			}
+			id, e := ctor(m[2])
+			if e != nil {
+				return "", e
+			}
+			rows = append(rows, fmt.Sprintf("(%q, %q, %q)", list, strings.Join(strings.Fields(m[1]), ""), id))
+		}
+		if len(rows) != 3 {
+			return "", fmt.Errorf("ValidateGenesisState: expected loops over Validators, Accounts, Pools, found %d", len(rows))
+		}
+		b.WriteString("\n/-- `ValidateGenesisState`: (list, key handed to the DeDuplicator, error identity returned on a repeated key) -/\n")
+		fmt.Fprintf(&b, "def genesisDedup : List (String × String × String) := [\n  %s]\n", strings.Join(rows, ",\n  "))
+	}
 	b.WriteString("\nend Canopy.Gen.LedgerFacts\n")
 	return b.String(), nil
 }
